@@ -7,7 +7,7 @@ CONSTANTS
   FccFixed = TRUE
   CommitBeforeCheckpoint = TRUE
   EnvAtomic = TRUE
-INVARIANTS TypeOK ResolvedOnlyWhenEmpty MarkedOnlyWhenResolved UpstreamConsistent
+INVARIANTS TypeOK ResolvedOnlyWhenEmpty MarkedOnlyWhenResolved NoPendingCloseWithEmptyLog UpstreamConsistent
 PROPERTIES NoLossProp
 VIEW View
 CHECK_DEADLOCK TRUE
